@@ -130,6 +130,7 @@ fn step_strategy() -> BoxedStrategy<Step> {
     prop_oneof![
         3 => prop_oneof![3 => 4u32..8, 2 => 0u32..4].prop_map(Step::Df11),
         2 => (0u32..8, alphabet::me_any()).prop_map(|(ca, me)| Step::Df17(ca, me)),
+        1 => (0u32..8, gen::vel_valid()).prop_map(|(ca, v)| Step::Df17(ca, bits::me_velocity(&v))),
         12 => (any::<bool>(), prop_oneof![gen::ac13_valid(), 0u32..8192], mb_strategy()).prop_map(|(d, code, (mb, label))| Step::CommB(d, code, mb, label)),
         1 => (0u32..8, alphabet::me_any()).prop_map(|(cf, me)| Step::Df18(cf, me)),
         1 => (prop_oneof![Just(19u32), 22u32..32], mb_strategy()).prop_map(|(df, (mb, label))| Step::OtherLong(df, mb, label)),
@@ -517,10 +518,75 @@ fn run(c: &mut Ctx) {
     });
     if let Some((h, m)) = r {
         c.fail(m, "c10:commb", json!({"kind":"hist","h":h}));
+        return;
+    }
+    long_report_series(c);
+    cli_option_order(c);
+}
+
+/// many capability reports in a row, then a register: the advertisement must still be known (255 / 256 / 257 / 300 / 512)
+fn long_report_series(c: &mut Ctx) {
+    for (i, n) in [255usize, 256, 257, 300, 512].into_iter().enumerate() {
+        if !c.mine(i as u64) {
+            continue;
+        }
+        for u in [false, true] {
+            let mut steps = vec![Step::Df11(5)];
+            for k in 0..n {
+                steps.push(Step::CommB(k % 2 == 0, bits::ac13_q1(1000), gen::mb17(true, true, true, 0), "bds17".into()));
+            }
+            steps.push(Step::CommB(false, bits::ac13_q1(1000), gen::mb50(&gen::R50 { roll: -100, track: 300, gs: 210, rate: -40, tas: 205 }), "bds50_plausible".into()));
+            steps.push(Step::CommB(true, 0, gen::mb60(&gen::R60 { hdg: -400, ias: 250, mach: 200, baro: -30, ivv: -30 }), "bds60_plausible".into()));
+            let h = Hist { opts: Opts::quiet().with_u(u), steps };
+            let mut st = Stats::default();
+            c.eval(1);
+            c.class("long_capability_report_series");
+            c.nontrivial(&("series", n, u));
+            if let Err(m) = check(&h, &mut st) {
+                if !c.failed() {
+                    c.fail(format!("after {} BDS 1,7 reports: {}", n, m), "c10:commb", json!({"kind":"hist","h":h}));
+                }
+            }
+        }
+    }
+}
+
+/// the order of -R and -U on the real command line must not matter: with -R a valid register is shown
+fn cli_option_order(c: &mut Ctx) {
+    if c.worker != 2 % c.nworkers {
+        return;
+    }
+    let path = run::tmp_dir().join("c10-cli.txt");
+    let lines = vec![
+        bits::df11(ME, 0, 0).hex(), // capability 0: the gate is closed unless -R is given
+        bits::df20(ME, bits::ac13_q1(1000), gen::mb40(&gen::R40 { mcp: 1438, fms: 1438, baro: 2132, mode_status: 1, modes: 2, src_status: 1, src: 2 }), 0).hex(),
+    ];
+    if std::fs::write(&path, lines.join("\n") + "\n").is_err() {
+        return;
+    }
+    for args in [vec!["-R"], vec!["-R", "-U"], vec!["-U", "-R"], vec!["-RU"], vec!["-UR"], vec!["--relaxed", "--use-update-method"], vec!["--use-update-method", "--relaxed"]] {
+        let out = std::process::Command::new(crate::cli::cli_path(true))
+            .args(&args)
+            .args(["-s", &path.to_string_lossy(), "--update=-1", "-i", "A", "-d", "100000"])
+            .output();
+        let Ok(out) = out else { continue };
+        c.eval(1);
+        c.class("cli_option_order");
+        let text = String::from_utf8_lossy(&out.stdout).to_string();
+        let (_, rs) = crate::cli::parse_refreshes(&text);
+        let shown = rs.last().and_then(|r| r.rows.first().cloned()).and_then(|row| crate::render::cells("A", &row)).map(|cells| cells["ALT S"].trim().to_string());
+        if (out.status.code() != Some(0) || shown.as_deref() != Some("23008")) && !c.failed() {
+            c.fail(format!("command line {:?}: -R is given, so the fully valid BDS 4,0 register (selected altitude 23008 ft) must be shown; ALT S column shows {:?} (exit {:?})", args, shown, out.status.code()), "c10:cli", json!({"kind":"cli_order"}));
+        }
     }
 }
 
 fn replay(c: &mut Ctx, case: &Value) {
+    if case["kind"].as_str() == Some("cli_order") {
+        c.worker = 2 % c.nworkers;
+        cli_option_order(c);
+        return;
+    }
     c.eval(1);
     let Ok(h) = serde_json::from_value::<Hist>(case["h"].clone()) else { return c.inconclusive("bad replay") };
     let mut st = Stats::default();
